@@ -145,5 +145,22 @@ func TestVerifC19(t *testing.T) {
 			ni = fmt.Sprintf("some %s type=%d", reflect.TypeOf(inst).Elem().Name(), inst.Type())
 		}
 		o.line(fmt.Sprintf("newinstance %d", typ), ni)
+		// the encode path of the client: the exported constructors refuse (panic / error) exactly the types that are not valid,
+		// so that a reserved or out-of-range type can not be put on the wire through SendNoWait / SendMessage
+		for k, mk := range []func() bool{
+			func() bool { _ = NewHdrOnlyMsg(mt); return true },
+			func() bool { _, err := NewByteMessage(mt, []byte{1, 2, 3}); return err == nil },
+			func() bool { _, err := NewByteMessage(mt, nil); return err == nil },
+		} {
+			accepted := func() (ok bool) {
+				defer func() {
+					if recover() != nil {
+						ok = false
+					}
+				}()
+				return mk()
+			}()
+			o.linef(fmt.Sprintf("ctor-accepts %d %d", typ, k), "%v", accepted)
+		}
 	}
 }
